@@ -105,10 +105,12 @@ def findFreeLoop (S : Strm σ) (ft : FatType) : Nat → σ → Nat → Nat → P
 /-- `find_free_cluster` -/
 def findFree (S : Strm σ) (ft : FatType) (s : σ) (start endC : Nat) : Prog (Nat × σ) :=
   match ft with
-  | .fat12 => do
-    let (_, s) ← S.seek s (.start (start + start / 2))
-    let (packed, s) ← readU16 S s
-    findFree12Loop S (endC - start + 2) s start endC packed
+  | .fat12 =>
+    if start ≥ endC then .fail .noSpace
+    else do
+      let (_, s) ← S.seek s (.start (start + start / 2))
+      let (packed, s) ← readU16 S s
+      findFree12Loop S (endC - start + 2) s start endC packed
   | .fat16 => do
     let (_, s) ← S.seek s (.start (start * 2))
     findFreeLoop S ft (endC - start + 2) s start endC
